@@ -1,6 +1,7 @@
 package c02
 
 import (
+	"context"
 	"fmt"
 	"testing"
 	"time"
@@ -344,43 +345,43 @@ func merges(threads [][]cop, visit func([]cop)) int {
 // atomic instruction, so the set of linearisations is the set of behaviours.
 func checkCounterSequence(seq []cop) string {
 	var c workers.VerifJobCounter
-	var model int64
+	// abstract reference: the number of jobs still pending (never negative). How the implementation
+	// represents "a worker asked when nothing was pending" (e.g. a negative counter) is its business:
+	// only what set reports as left over (clamped at 0), and what none/take answer, is compared.
+	var pending int64
 	var setVal, takes int64 // current period: value set, successful takes since
 	havePeriod := false
 	for i, op := range seq {
 		switch op.Kind {
 		case 0:
-			left := c.Set(op.N)
-			if left != model {
-				return fmt.Sprintf("op %d %v returned leftover %d, reference %d (sequence %v)", i, op, left, model, seq)
+			left := max(0, c.Set(op.N))
+			if left != pending {
+				return fmt.Sprintf("op %d %v reported %d jobs left over, %d were still pending (sequence %v)", i, op, left, pending, seq)
 			}
-			if havePeriod {
-				// conservation per period: what was set = what was taken + what is reported left over
-				if setVal != takes+max(0, left) {
-					return fmt.Sprintf("period law broken before op %d: set %d, %d successful takes, leftover %d (sequence %v)", i, setVal, takes, left, seq)
-				}
+			if havePeriod && setVal != takes+left {
+				return fmt.Sprintf("period law broken before op %d: set %d, %d successful takes, leftover %d (sequence %v)", i, setVal, takes, left, seq)
 			}
-			model = int64(op.N)
+			pending = int64(op.N)
 			setVal, takes, havePeriod = int64(op.N), 0, true
 		case 1:
-			if got, want := c.None(), model <= 0; got != want {
-				return fmt.Sprintf("op %d none()=%v with %d pending (sequence %v)", i, got, model, seq)
+			if got, want := c.None(), pending == 0; got != want {
+				return fmt.Sprintf("op %d none()=%v with %d pending (sequence %v)", i, got, pending, seq)
 			}
 		case 2:
 			got := c.Take()
-			want := model > 0
-			model--
+			want := pending > 0
 			if got != want {
-				return fmt.Sprintf("op %d take()=%v with %d pending before it (sequence %v)", i, got, model+1, seq)
+				return fmt.Sprintf("op %d take()=%v with %d pending before it (sequence %v)", i, got, pending, seq)
 			}
 			if got {
+				pending--
 				takes++
 			}
 		}
 	}
 	if havePeriod {
-		left := c.Set(0)
-		if setVal != takes+max(0, left) {
+		left := max(0, c.Set(0))
+		if setVal != takes+left {
 			return fmt.Sprintf("period law broken at the end: set %d, %d successful takes, leftover %d (sequence %v)", setVal, takes, left, seq)
 		}
 	}
@@ -448,4 +449,112 @@ func TestRegress(t *testing.T) {
 			t.Errorf("VERIF-VIOLATION C02: %s", msg)
 		}
 	}
+}
+
+// (vi) the limit has already been reached by an earlier pool of the same PoolManager (an
+// earlier config-file stage); work handed to a later pool cannot start solely because of the
+// limit and must never be reported dropped - whether it is superseded by a tick or swept by the
+// stop path before any worker of the new pool asked for an id.
+func TestProp_ScriptedLimitSecondPool(t *testing.T) {
+	rapid.Check(t, func(rt *rapid.T) {
+		conc := rapid.IntRange(1, 3).Draw(rt, "concurrency")
+		limit := uint64(rapid.IntRange(1, 4).Draw(rt, "limit"))
+		n1 := rapid.IntRange(1, 5).Draw(rt, "secondPoolTick")
+		n2 := rapid.IntRange(0, 5).Draw(rt, "secondPoolSecondTick")
+		sweepBy := rapid.SampledFrom([]string{"tick", "stop"}).Draw(rt, "sweptBy")
+
+		r := newRig(limit, conc, false, 0)
+		r.tick(int(limit) + 2) // the first pool runs `limit` iterations and hits the limit
+		select {
+		case <-r.pm.WaitForCompletion():
+		case <-time.After(20 * time.Second):
+			rt.Fatalf("VERIF-VIOLATION C02: first pool did not stop after the limit (c=%d limit=%d)", conc, limit)
+		}
+		if !waitUntil(func() bool { return r.pm.MaxIterationsReached() }) {
+			rt.Fatalf("VERIF-INFRA: limit not reached")
+		}
+		w := newStopWatcher()
+		g := vlib.NewGate("pool.worker.before_take", 1, gateTimeout)
+		remove := vlib.InstallGates(w.observe, g)
+		defer remove()
+		droppedBefore := r.dropped()
+		pool2 := r.pm.NewTriggerPool(conc)
+		ctx2, cancel2 := context.WithCancel(context.Background())
+		defer cancel2()
+		w2 := pool2.Start(ctx2)
+		pool2.Trigger(w2, n1)
+		reached := false
+		select {
+		case <-g.Arrived():
+			reached = true
+		case <-time.After(gateTimeout):
+		}
+		if sweepBy == "tick" {
+			pool2.Trigger(w2, n2)
+		}
+		cancel2()
+		select {
+		case <-w.done:
+		case <-time.After(gateTimeout):
+		}
+		g.Open()
+		select {
+		case <-r.pm.WaitForCompletion():
+		case <-time.After(20 * time.Second):
+			rt.Fatalf("VERIF-VIOLATION C02: second pool did not stop (c=%d limit=%d)", conc, limit)
+		}
+		started, dropped := uint64(r.entered.Load()), r.dropped()
+		cls := []string{"swept-by-" + sweepBy}
+		if reached {
+			cls = append(cls, "gate-reached")
+		}
+		stats.Case("scripted-limit-second-pool", fmt.Sprint(conc, limit, n1, n2, sweepBy), reached, cls, func() any {
+			return map[string]any{"script": "limit reached by an earlier pool; later pool's work superseded / swept", "concurrency": conc, "limit": limit, "tick": n1, "second_tick": n2, "swept_by": sweepBy}
+		})
+		if started != limit {
+			rt.Fatalf("VERIF-VIOLATION C02: limit %d but %d iterations started across two pools", limit, started)
+		}
+		if dropped != droppedBefore {
+			rt.Fatalf("VERIF-VIOLATION C02: c=%d limit=%d already reached by an earlier pool; a later pool was handed %d (then %d) requests, swept by %s before a worker asked for an id: %d iterations were reported dropped although they could not start solely because of the limit",
+				conc, limit, n1, n2, sweepBy, dropped-droppedBefore)
+		}
+	})
+}
+
+// ---- engine E: many workers, many small back-to-back ticks, exact conservation -----------------
+
+func TestProp_TickHammer(t *testing.T) {
+	rapid.Check(t, func(rt *rapid.T) {
+		conc := rapid.SampledFrom([]int{8, 16, 32}).Draw(rt, "concurrency")
+		ticks := rapid.SampledFrom([]int{20000, 100000}).Draw(rt, "ticks")
+		size := rapid.IntRange(1, 3).Draw(rt, "tickSize")
+		w := newStopWatcher()
+		remove := vlib.InstallGates(w.observe)
+		defer remove()
+		r := newRig(0, conc, false, 0)
+		var requested uint64
+		for i := 0; i < ticks; i++ {
+			r.tick(size)
+			requested += uint64(size)
+		}
+		// every tick returned under a live context: all of them were accepted
+		r.cancel()
+		select {
+		case <-r.pm.WaitForCompletion():
+		case <-time.After(20 * time.Second):
+			rt.Fatalf("VERIF-VIOLATION C02: workers did not finish (c=%d ticks=%d)", conc, ticks)
+		}
+		w.settled(r)
+		started, dropped := uint64(r.entered.Load()), r.dropped()
+		stats.Case("hammer", fmt.Sprint(conc, ticks, size), dropped > 0 && started > 0, []string{}, func() any {
+			return map[string]any{"concurrency": conc, "ticks": ticks, "tick_size": size, "started": started, "dropped": dropped}
+		})
+		if started+dropped != requested {
+			rt.Fatalf("VERIF-VIOLATION C02: %d workers, %d back-to-back ticks of %d: requested %d iterations, but started %d + dropped %d = %d",
+				conc, ticks, size, requested, started, dropped, started+dropped)
+		}
+		if msg := gapless(r.idsCopy()); msg != "" {
+			rt.Fatalf("VERIF-VIOLATION C02: %s", msg)
+		}
+	})
 }
